@@ -39,7 +39,9 @@ func finishRun(prop, scn string, w *world.World, e *vrt.Exec, trace bool, race b
 	sr := &ScnResult{R: res}
 	rule, msg := basicVerdict(e)
 	if rule == "" && e.Reason() == vrt.EndStepCap {
-		// a capped run is not judged further
+		// no scenario comes near the cap: an execution that does not end is spinning (e.g. a state
+		// machine re-entering a state without waiting for anything)
+		rule, msg = "livelock", fmt.Sprintf("the execution did not end within %d steps (virtual time %s): corebgp is busy-looping", e.Steps(), time.Duration(e.Now()))
 	} else if rule == "" && e.Reason() != vrt.EndTruncated {
 		if race && len(e.Races()) > 0 {
 			r := e.Races()[0]
